@@ -65,7 +65,11 @@ class Ctx:
             if im['trait_path'] and im['trait_path'].endswith('ops::Deref'):
                 for it in im['items']:
                     if it['kind'] == 'type' and it['name'] == 'Target' and it['ty'] in BORROWED:
-                        self.owned[im['self_ty']] = it['ty']
+                        adt = P.adts.get(im['self_ty'])
+                        # an owned validated type is a newtype over the owned text
+                        if adt and len(adt['variants']) == 1 and len(adt['variants'][0]['fields']) == 1 and \
+                                adt['variants'][0]['fields'][0]['ty'] in ('std::string::String', 'std::vec::Vec<u8>', 'std::vec::Vec<u8, std::alloc::Global>'):
+                            self.owned[im['self_ty']] = it['ty']
         # trait impl tables: trait path -> list of (self_ty, {assoc: ty})
         self.trait_impls = {}
         for im in P.impls:
@@ -366,7 +370,7 @@ def classify(ctx, b, bi, t, idx_in_fn):
     return ('?', None, '', False, f'unrecognised unsafe operation (callee {callee}, argument {_short(a0)})')
 
 
-OWN = ('uri::', 'iri::', 'common::', '<uri::', '<iri::', '<common::')
+OWN = ('uri::', 'iri::', 'common::', '<uri::', '<iri::', '<common::', '<<uri::', '<<iri::', "<&'a uri::", "<&'a iri::", "<<&'a uri::", "<<&'a iri::")
 
 
 def own_inlinable(name):
